@@ -1,9 +1,12 @@
 package props
 
 import (
+	"bytes"
 	"errors"
 	"fmt"
+	"path/filepath"
 	"strings"
+	"syscall"
 
 	"github.com/glebziz/fs_db"
 	"github.com/glebziz/fs_db/pkg/verif"
@@ -21,6 +24,7 @@ func init() {
 		Roles: map[string]Role{
 			"hist":    {N: func(t string) int { return tierN(t, 144, 2000) }, Case: c11HistCase},
 			"mapping": {N: func(t string) int { return 1 }, Case: c11MappingCase},
+			"reject":  {N: func(t string) int { return tierN(t, 4, 16) }, Case: c11RejectCase},
 		},
 	})
 }
@@ -178,4 +182,81 @@ func shapeClass(n string) string {
 		}
 	}
 	return fmt.Sprintf("depth%d/%s", d, strings.Join(ks, ""))
+}
+
+// c11RejectCase: writes that the server rejects (empty key; no room on any root, injected in the
+// in-process server through the write hook) with contents from empty to several MiB, so that the
+// rejection arrives before, while and after the client streams; the gRPC client must report the
+// class the inline client reports for the same call.
+func c11RejectCase(tier string, seed int64, idx int, scratch string) rt.CaseResult {
+	var c rt.CaseResult
+	g, err := dbx.Open(dbx.Options{Mode: dbx.Grpc, Dir: filepath.Join(scratch, "g")})
+	if err != nil {
+		c.Violate("open-failed", err.Error(), nil)
+		return c
+	}
+	defer g.Close()
+	in, err := dbx.Open(dbx.Options{Mode: dbx.Inline, Dir: filepath.Join(scratch, "i")})
+	if err != nil {
+		c.Violate("open-failed", err.Error(), nil)
+		return c
+	}
+	defer in.Close()
+	defer verif.SetWriteFault(nil)
+	sizes := []int{0, 1, 2047, 2048, 2049, 100000, 1 << 20, 4<<20 + 17}
+	for round := 0; round < tierN(tier, 2, 4); round++ {
+		for _, size := range sizes {
+			for _, api := range []string{"set", "setreader", "create"} {
+				for _, rej := range []string{"empty-key", "no-space", "none"} {
+					rt.Beat()
+					key := "k"
+					if rej == "empty-key" {
+						key = ""
+					}
+					if rej == "no-space" {
+						if size == 0 {
+							continue // nothing is written, nothing can fail
+						}
+						verif.SetWriteFault(func(path string, p []byte) (int, error, bool) { return 0, syscall.ENOSPC, true })
+					} else {
+						verif.SetWriteFault(nil)
+					}
+					content := seqrun.Content(fmt.Sprintf("r%d-%d-%s-%s", idx, size, api, rej), size)
+					do := func(db fs_db.DB) error {
+						switch api {
+						case "set":
+							return db.Set(ctxBg, key, content)
+						case "setreader":
+							return db.SetReader(ctxBg, key, bytes.NewReader(content))
+						default:
+							f, err := db.Create(ctxBg, key)
+							if err != nil {
+								return err
+							}
+							var werr error
+							for off := 0; off < len(content) && werr == nil; off += 65536 {
+								_, werr = f.Write(content[off:min(len(content), off+65536)])
+							}
+							cerr := f.Close()
+							if werr != nil {
+								return werr
+							}
+							return cerr
+						}
+					}
+					ci, cg := seqrun.Class(do(in.DB)), seqrun.Class(do(g.DB))
+					c.Evals++
+					if ci != cg {
+						c.Violate(fmt.Sprintf("server-rejection-class-differs op=%s rejection=%s inline=%s grpc=%s", api, rej, ci, cg), fmt.Sprintf("%s of %d bytes, rejection %s: the inline client reports %s, the gRPC client %s", api, size, rej, ci, cg), map[string]any{"api": api, "size": size, "rejection": rej, "inline": ci, "grpc": cg})
+						return c
+					}
+					c.AddDistinct(fmt.Sprintf("reject:%s/%s/%s/%s", api, rej, lenClass(size), cg))
+				}
+			}
+		}
+	}
+	if idx == 0 {
+		c.Sample = map[string]any{"rejections": []string{"empty key", "no space on any root (hook in the in-process server)", "none"}, "sizes": sizes}
+	}
+	return c
 }
